@@ -89,6 +89,10 @@ def run_case(case, want_trace=False):
                     data = R.msg(typ, R.POST, rq["mid"], tok + b"\x01", [(R.O_URI_PATH, rq["handler"])], b"x")
                 net.at(T0 + rq["t"] + off, peers[rq["peer"]].send, A, data)
 
+        for er in case.get("errors", []):
+            # a transport error (ICMP) reported for a peer between copies: what was received from it is not forgotten
+            net.at(T0 + er["t"], net.inject_error, a, PEERS[er["peer"]])
+            labels.add("transport-error-between-copies")
         delivered = []
 
         def after(d):
@@ -210,6 +214,8 @@ def _case(draw):
             rq["mid"] = (rq["mid"] + 7 + len(seen)) & 0xFFFF
         seen[(rq["peer"], rq["mid"])] = True
     case = {"requests": reqs, "rng": draw(st.integers(0, 99))}
+    if draw(st.integers(0, 3)) == 0:
+        case["errors"] = draw(st.lists(st.fixed_dictionaries({"t": st.sampled_from([0.0005, 0.05, 0.5, 1.5, 3.5, 100.0]), "peer": st.integers(0, 2)}), min_size=1, max_size=2))
     m0 = draw(st.sampled_from([None, "pool", "pool", 0x2FFF, 0xFFFF]))
     if m0 == "pool":
         case["mid0"] = draw(st.sampled_from(pool))
